@@ -347,8 +347,9 @@ func (e *Env) eval(ex ast.Expr) (Val, bool) {
 			return e.load(p, st.Elem()), true
 		case KScalar:
 			if mt, ok := under(xv.Typ).(*types.Map); ok {
-				v, _ := x.mapGet(e.st, e.view(), xv.T, mt, x.keyTerm(iv))
-				return v, true
+				// as in Go, an absent key reads as the zero value
+				v, present := x.mapGet(e.st, e.view(), xv.T, mt, x.keyTerm(iv))
+				return x.iteVal(present, v, x.zeroVal(mt.Elem()), mt.Elem()), true
 			}
 		}
 		return e.fail("unsupported index expression %s", types.ExprString(ex))
